@@ -205,6 +205,45 @@ def with_plain(draw):
     return comp
 
 
+_DESCS = {
+    "noise-list": lambda: [{"kind": "kd_additive_gaussian_noise", "std": 1.0}],
+    "noise-dict": lambda: {"kind": "kd_additive_gaussian_noise", "std": 1.0},
+    "two-list": lambda: [{"kind": "kd_additive_uniform_noise", "magnitude": 0.5}, {"kind": "kd_random_horizontal_flip"}],
+}
+
+
+def check_apply_description(spec):
+    """KDRandomApply handed a *description* (kind-dict / list, what configuration files hold) instead of a transform object: the pinned
+    library refuses it when the member is first applied; a version that answers is judged like any other transform - equal injected
+    seeds give equal outputs whatever the global generators hold, and the global generators are not consumed"""
+    from kappadata.transforms import KDRandomApply
+    inputs = [treg.make_input("img3", spec["key"] + i) for i in range(spec["m"])]
+    outs = []
+    for g in (spec["g1"], spec["g2"]):
+        _set_globals(g)
+        try:
+            tr = KDRandomApply(transform=_DESCS[spec["desc"]](), p=spec["p"])
+            tr.set_rng(np.random.default_rng(spec["seed"]))
+        except Exception as e:
+            raise Refused("description refused at construction: " + type(e).__name__)
+        snap = _global_snapshot()
+        try:
+            o = [tr(treg.clone_input(x), {}) for x in inputs]
+        except (TypeError, AssertionError, AttributeError, NotImplementedError) as e:
+            raise Refused("description refused when applied: " + type(e).__name__)
+        if not _globals_equal(snap, _global_snapshot()):
+            raise Violation("global-rng-consumed:random-apply-over-description", f"{spec['desc']} p={spec['p']}")
+        outs.append(o)
+    for a, b in zip(*outs):
+        if not torch.equal(a, b):
+            raise Violation("same-seed-different-output:random-apply-over-description", f"{spec['desc']} p={spec['p']} seed {spec['seed']}")
+    return Case(True, [spec["desc"]], 2 * len(inputs))
+
+
+APPLY_DESC = st.fixed_dictionaries({"desc": st.sampled_from(sorted(_DESCS)), "p": st.sampled_from([1.0, 1.0, 0.7, 0.3]), "seed": st.integers(0, 2 ** 31),
+                                    "g1": st.integers(0, 99), "g2": st.integers(100, 199), "key": st.integers(0, 50), "m": st.integers(1, 4)})
+
+
 def _leaf_facet(name):
     return Facet("leaf:" + name, check, strategy=lambda tier, n=name: _wrap(treg.leaf_spec(n)),
                  budget={"quick": 200, "thorough": 1500}, shards={"quick": 1, "thorough": 2},
@@ -225,6 +264,8 @@ FACETS += [
     Facet("composites-with-plain-members", check, strategy=lambda tier: _wrap(with_plain()),
           budget={"quick": 1200, "thorough": 6000}, shards={"quick": 6, "thorough": 8},
           min_nontrivial={"quick": 100, "thorough": 1000}, case_timeout=120),
+    Facet("random-apply-over-description", check_apply_description, strategy=lambda tier: APPLY_DESC,
+          budget={"quick": 200, "thorough": 1000}, shards={"quick": 1, "thorough": 1}, min_nontrivial={"quick": 0, "thorough": 0}, case_timeout=60),
     Facet("pipelines", check,
           strategy=lambda tier: _wrap(st.sampled_from(sorted(treg.PIPELINES)).map(lambda n: {"k": "pipeline", "name": n})),
           budget={"quick": 300, "thorough": 1500}, shards={"quick": 2, "thorough": 6},
